@@ -61,6 +61,24 @@ def fracNdtrArgs (q sigma alpha : R) (i : Nat) : R × R :=
   (-((iR - z0) / (sqrt (ofNat 2) * sigma)) * sqrt (ofNat 2),
    -((z0 - j) / (sqrt (ofNat 2) * sigma)) * sqrt (ofNat 2))
 
+/-- `log_s0` of iteration `i` of `_compute_log_a_for_frac_alpha` (`coef = binom(alpha, i)`) -/
+def fracS0 (lnd : R → R) (q sigma alpha z0 : R) (i : Nat) (coef : R) : R :=
+  let iR : R := ofNat i
+  let logCoef := log (if lt coef (ofNat 0) then -coef else coef)
+  let j := alpha - iR
+  let logT0 := logCoef + iR * log q + j * log (ofNat 1 - q)
+  let logE0 := log (ofNat 1 / ofNat 2) + logErfc lnd ((iR - z0) / (sqrt (ofNat 2) * sigma))
+  logT0 + ofNat (i * i - i) / (ofNat 2 * (sigma * sigma)) + logE0
+
+/-- `log_s1` of iteration `i` -/
+def fracS1 (lnd : R → R) (q sigma alpha z0 : R) (i : Nat) (coef : R) : R :=
+  let iR : R := ofNat i
+  let logCoef := log (if lt coef (ofNat 0) then -coef else coef)
+  let j := alpha - iR
+  let logT1 := logCoef + j * log q + iR * log (ofNat 1 - q)
+  let logE1 := log (ofNat 1 / ofNat 2) + logErfc lnd ((z0 - j) / (sqrt (ofNat 2) * sigma))
+  logT1 + (j * j - j) / (ofNat 2 * (sigma * sigma)) + logE1
+
 /-- body of the `while True` loop of `_compute_log_a_for_frac_alpha`; `coef = binom(alpha, i)` is
 carried along (`binom(α, i+1) = binom(α, i)·(α−i)/(i+1)`) -/
 def fracLoop (lnd : R → R) (repaired : Bool) (q sigma alpha z0 : R) :
@@ -68,15 +86,8 @@ def fracLoop (lnd : R → R) (repaired : Bool) (q sigma alpha z0 : R) :
   | 0, _, _, _, _ => .error .oracleExhausted
   | fuel + 1, i, coef, a0, a1 =>
     if beq coef (ofNat 0) then .error .logZero else
-    let iR : R := ofNat i
-    let logCoef := log (if lt coef (ofNat 0) then -coef else coef)
-    let j := alpha - iR
-    let logT0 := logCoef + iR * log q + j * log (ofNat 1 - q)
-    let logT1 := logCoef + j * log q + iR * log (ofNat 1 - q)
-    let logE0 := log (ofNat 1 / ofNat 2) + logErfc lnd ((iR - z0) / (sqrt (ofNat 2) * sigma))
-    let logE1 := log (ofNat 1 / ofNat 2) + logErfc lnd ((z0 - j) / (sqrt (ofNat 2) * sigma))
-    let logS0 := logT0 + ofNat (i * i - i) / (ofNat 2 * (sigma * sigma)) + logE0
-    let logS1 := logT1 + (j * j - j) / (ofNat 2 * (sigma * sigma)) + logE1
+    let logS0 := fracS0 lnd q sigma alpha z0 i coef
+    let logS1 := fracS1 lnd q sigma alpha z0 i coef
     let upd : Except Err (Option R × Option R) :=
       if lt (ofNat 0) coef then .ok (logAdd a0 (some logS0), logAdd a1 (some logS1))
       else
@@ -93,7 +104,8 @@ def fracLoop (lnd : R → R) (repaired : Bool) (q sigma alpha z0 : R) :
       -- fractional alpha) the FIRST terms are already below e^-30 and the loop stops at i = 0.
       -- repaired: the test is made only after the last positive coefficient (`i > alpha`).
       if (!repaired || lt alpha (ofNat (i + 1))) && lt m (-(ofNat 30)) then .ok (logAdd b0 b1)
-      else fracLoop lnd repaired q sigma alpha z0 fuel (i + 1) (coef * (alpha - iR) / ofNat (i + 1)) b0 b1
+      else fracLoop lnd repaired q sigma alpha z0 fuel (i + 1)
+        (coef * (alpha - ofNat i) / ofNat (i + 1)) b0 b1
 
 /-- `_compute_log_a_for_frac_alpha(q, sigma, alpha)` with at most `fuel` iterations -/
 def logAFrac (lnd : R → R) (repaired : Bool) (fuel : Nat) (q sigma alpha : R) : Except Err (Option R) :=
